@@ -312,7 +312,31 @@ def rule_choice_search(ctx: Ctx, rid="C03.BISECT-RIGHT", parts=("right", "clamp"
                       f"search operands are ({a0}, {xt}), not (cum_weights, u*total)", site=m.site(c), text=f"{a0} | {xt}")
     # prefix sums
     cw = [n for n in walk_no_nested(fn) if isinstance(n, ast.Assign) and any(isinstance(t, ast.Name) and t.id == "cum_weights" for t in n.targets)]
-    ok = len(cw) == 1 and norm(cw[0].value) in ("list(accumulate(weights))", "list(itertools.accumulate(weights))")
+    ACC = ("list(accumulate(weights))", "list(itertools.accumulate(weights))")
+
+    def prefix_sums(e):
+        if norm(e) in ACC:
+            return True
+        # a helper of the module all of whose returns are (names bound to) list(accumulate(<its parameter>))
+        if isinstance(e, ast.Call) and dotted(e.func) in m.functions() and len(e.args) == 1 and norm(e.args[0]) == "weights":
+            f = m.functions()[dotted(e.func)]
+            par = f.args.args[0].arg if f.args.args else None
+            want = {a.replace("weights", par) for a in ACC}
+            for r in [x for x in ast.walk(f) if isinstance(x, ast.Return)]:
+                v = r.value
+                if v is None:
+                    return False
+                if norm(v) in want:
+                    continue
+                if isinstance(v, ast.Name):
+                    defs = [a.value for a in ast.walk(f) if isinstance(a, ast.Assign) and any(isinstance(t, ast.Name) and t.id == v.id for t in a.targets)]
+                    if defs and all(norm(d) in want for d in defs):
+                        continue
+                return False
+            return True
+        return False
+    ok = bool(cw) and all(prefix_sums(x.value) or (isinstance(x.value, ast.Name) and "prefix" not in parts) for x in cw) and \
+        (len(cw) == 1 or all(prefix_sums(x.value) for x in cw))
     ctx.rep.check(ok, rid.split(".")[0] + ".PREFIX-SUMS", con + "[cum_weights]",
                   "cum_weights = list(accumulate(weights)): prefix sums of the weights in declared order" if ok else
                   f"cum_weights is built by {[norm(x.value) for x in cw]}", site=site, text=str([norm(x.value) for x in cw]))
@@ -322,7 +346,7 @@ def rule_choice_search(ctx: Ctx, rid="C03.BISECT-RIGHT", parts=("right", "clamp"
                   site=site, text=norm(tot) if tot is not None else "total?")
 
 
-def rule_position_slice(ctx: Ctx, rid="C10.POSITION-SLICE"):
+def rule_position_slice(ctx: Ctx, rid="C10.POSITION-SLICE", parts=("arg", "primitive")):
     m, fn = _choice(ctx)
     con = f"{BIN}:deterministic_choice"
     calls = [n for n in walk_no_nested(fn) if isinstance(n, ast.Call) and dotted(n.func) == "deterministic_proba"]
@@ -349,24 +373,13 @@ def rule_position_slice(ctx: Ctx, rid="C10.POSITION-SLICE"):
             return any(isinstance(x, ast.Call) and (is_prim(x, depth + 1) or dotted(x.func) == "deterministic_proba" and False)
                        for x in ast.walk(f))
         return False
+    if "primitive" not in parts:
+        return
     prim = [n for n in walk_no_nested(fn) if isinstance(n, ast.Call) and is_prim(n)]
     ctx.rep.check(not prim, "C10.ONE-PRIMITIVE", con,
                   "deterministic_choice derives positions only through deterministic_proba" if not prim else
                   f"a second position primitive is used in deterministic_choice: {norm(prim[0])[:80]}",
                   site=m.site(prim[0]) if prim else m.site(fn), text=norm(prim[0])[:100] if prim else "")
-    # every non-random return is population[<index built from u and n/cum_weights>]
-    for r in [n for n in walk_no_nested(fn) if isinstance(n, ast.Return)]:
-        v = r.value
-        if isinstance(v, ast.Subscript) and dotted(v.value) == params[1]:
-            idx = v.slice
-            uses = {dotted(c.func) for c in ast.walk(idx) if isinstance(c, ast.Call)}
-            known = uses <= {"deterministic_proba", "_floor", "floor", "math.floor", "bisect", "bisect_right", "bisect.bisect",
-                             "bisect.bisect_right", "bisect_left", "bisect.bisect_left", "int", "len"}
-            hasu = "deterministic_proba" in uses
-            ctx.rep.check(known and hasu, "C10.LOCATE-FROM-U", con + f"[{norm(r)[:60]}]",
-                          "index is located from u = deterministic_proba(input_id)" if known and hasu else
-                          f"index expression {norm(idx)[:80]} is not built from u (calls: {sorted(x for x in uses if x)})",
-                          site=m.site(r), text=norm(r)[:120])
 
 
 def rule_random_guarded(ctx: Ctx, rid="C01.RANDOM-GUARDED"):
@@ -503,9 +516,7 @@ def rule_no_shared_state(ctx: Ctx, rid="C17.NO-SHARED-WRITES", modules=None):
             for d in fn.decorator_list:
                 dn = dotted(d.func) if isinstance(d, ast.Call) else dotted(d)
                 if dn in CACHE_DECORATORS:
-                    ctx.rep.bad(rid, q, f"@{dn} keeps a per-process cache keyed by ==/hash of the arguments (1, 1.0 and True share a "
-                                "slot) that outlives the call and is shared between threads and evaluators",
-                                site=m.site(fn), text=f"@{dn} {fn.name}")
+                    pass   # functools caches are internally locked; their ==-keying is judged by NO-VALUE-KEYED-CACHE
             glob = set()
             for n in walk_no_nested(fn):
                 if isinstance(n, (ast.Global, ast.Nonlocal)):
@@ -651,7 +662,7 @@ def _is_subclass_of(ctx: Ctx, mod: Module, c: ast.ClassDef, roots, depth=0):
     return False
 
 
-def rule_fresh_per_parse(ctx: Ctx, rid="C17.FRESH-PER-PARSE"):
+def rule_fresh_per_parse(ctx: Ctx, rid="C17.FRESH-PER-PARSE", kinds=("Lexer", "Parser", "PythonCodeGen")):
     """Every Lexer / Parser / PythonCodeGen object is created inside a function, bound to a local
     (or used inline) and does not escape to module, class, default-argument or cached storage."""
     stateful = {}
@@ -661,6 +672,10 @@ def rule_fresh_per_parse(ctx: Ctx, rid="C17.FRESH-PER-PARSE"):
                 stateful[cn] = m
     if len(stateful) < 3:
         raise AnalysisError(f"expected the lexer, parser and generator classes, found {sorted(stateful)}")
+    all_stateful = dict(stateful)
+    stateful = {k: v for k, v in stateful.items()
+                if (k == "PythonCodeGen" and "PythonCodeGen" in kinds)
+                or any(kk in kinds and _is_subclass_of(ctx, v, v.classes()[k], {kk}) for kk in ("Lexer", "Parser"))}
     n = 0
     for m in ctx.src.own_modules():
         parents = {}
@@ -707,7 +722,7 @@ def rule_fresh_per_parse(ctx: Ctx, rid="C17.FRESH-PER-PARSE"):
             else:
                 ctx.rep.ok(rid, con, "constructed per call and kept local", site=m.site(node))
     # module-level names bound to instances via other spellings (e.g. `_LEXER = None` then global assignment) are covered by NO-SHARED-WRITES
-    ctx.rep.floor("construction sites of lexer/parser/generator objects", n, 4)
+    ctx.rep.floor("construction sites of lexer/parser/generator objects", n, 4 if len(kinds) == 3 else 1)
     # parse_source itself must construct both
     wf = ctx.mod(WF)
     ps = wf.get_function("parse_source")
@@ -717,8 +732,8 @@ def rule_fresh_per_parse(ctx: Ctx, rid="C17.FRESH-PER-PARSE"):
                     and nn.id in module_level_mutables(wf) or (isinstance(nn, ast.Name) and nn.id.startswith("_") and nn.id.isupper())}
     made_lex = {k for k in made if _is_subclass_of(ctx, stateful[k], stateful[k].classes()[k], {"Lexer"})}
     made_par = {k for k in made if _is_subclass_of(ctx, stateful[k], stateful[k].classes()[k], {"Parser"})}
-    lex_cls = {"a Lexer subclass"} if not made_lex else set()
-    lex_cls |= {"a Parser subclass"} if not made_par else set()
+    lex_cls = {"a Lexer subclass"} if (not made_lex and "Lexer" in kinds) else set()
+    lex_cls |= {"a Parser subclass"} if (not made_par and "Parser" in kinds) else set()
     made = made | lex_cls if False else made
     ok = not lex_cls
     ctx.rep.check(ok, rid, f"{WF}:parse_source", "parse_source creates its own lexer and parser on every call" if ok else
@@ -854,7 +869,9 @@ def _is_state_write(st, self_name, class_names, mm):
     return out
 
 
-def rule_commit_order(ctx: Ctx, rid="C11.COMMIT-ORDER"):
+def rule_commit_order(ctx: Ctx, rid="C11.COMMIT-ORDER", parse_only=False):
+    """parse_only (C06): only the parse step counts as the thing that may fail - nothing may be
+    recorded before the text has been parsed and the None result checked."""
     m, c = _evaluator(ctx)
     rec = m.get_method(c, "recompile")
     self_name = rec.args.args[0].arg
@@ -878,6 +895,8 @@ def rule_commit_order(ctx: Ctx, rid="C11.COMMIT-ORDER"):
                 if first_w is not None:
                     # a later write: evaluating it must not be able to raise
                     risky = any(flow.may_raise_expr(rhs) for _, _, rhs in ws)
+                    if parse_only:
+                        risky = any(isinstance(x, ast.Call) and dotted(x.func) == "parse_source" for _, _, rhs in ws if rhs is not None for x in ast.walk(rhs))
                     if risky and norm(st) not in reported:
                         reported.add(norm(st))
                         ctx.rep.bad(rid, f"{EV}:ExperimentEvaluator.recompile", f"state write `{norm(st)[:70]}` can raise after "
@@ -885,6 +904,9 @@ def rule_commit_order(ctx: Ctx, rid="C11.COMMIT-ORDER"):
                                     site=m.site(st), text=f"{norm(first_w)[:80]} ; {norm(st)[:80]}")
                 else:
                     first_w = st
+                continue
+            if parse_only and not any(isinstance(x, ast.Call) and dotted(x.func) in ("parse_source",) for x in ast.walk(st)) \
+                    and not (isinstance(st, ast.Raise)):
                 continue
             if first_w is not None and flow.may_raise_stmt(st) and not isinstance(st, ast.Return):
                 key = (norm(first_w), norm(st))
@@ -894,7 +916,7 @@ def rule_commit_order(ctx: Ctx, rid="C11.COMMIT-ORDER"):
                                 f"`{norm(st)[:70]}` may raise after the state write `{norm(first_w)[:60]}`: a recompile that fails "
                                 "here has already changed the evaluator (and, for the checksum, makes the same invalid text be "
                                 "skipped next time)", site=m.site(st), text=f"{norm(first_w)[:80]} ; {norm(st)[:80]}")
-        if p.exit == "raise" and first_w is not None:
+        if p.exit == "raise" and first_w is not None and not (parse_only and not isinstance(p.exit_node, ast.Raise)):
             key = (norm(first_w), "raise-exit")
             if key not in reported and not any(k[0] == norm(first_w) for k in reported if isinstance(k, tuple)):
                 reported.add(key)
@@ -1008,6 +1030,12 @@ def rule_instance_only(ctx: Ctx, rid="C11.INSTANCE-ONLY"):
             for k, a, rhs in _is_state_write(st, self_name, cn, mm):
                 n += 1
                 ok = k in ("instance",)
+                if k in ("instance-container", "instance-nested"):
+                    attr = str(a).split(".")[1].split("[")[0] if "." in str(a) else str(a)
+                    class_level = any(isinstance(x, (ast.Assign, ast.AnnAssign)) and any(
+                        isinstance(t, ast.Name) and t.id == attr for t in (x.targets if isinstance(x, ast.Assign) else [x.target]))
+                        and not isinstance(getattr(x, "value", None), ast.Constant) for x in c.body)
+                    ok = not class_level
                 ctx.rep.check(ok, rid, f"{EV}:ExperimentEvaluator.{fn.name}[{norm(st)[:50]}]",
                               f"instance write to {a}" if ok else f"{k} write: state shared between evaluators ({a})",
                               site=m.site(st), text=norm(st)[:100])
@@ -1123,7 +1151,7 @@ def rule_installed_function(ctx: Ctx, rid="C11.INSTALLED-FUNCTION", strict=True,
     return installs
 
 
-def rule_call_forwards(ctx: Ctx, rid="C09.CALL-FORWARDS"):
+def rule_call_forwards(ctx: Ctx, rid="C09.CALL-FORWARDS", publish=False):
     m, c = _evaluator(ctx)
     call = m.get_method(c, "__call__")
     a = call.args
@@ -1154,6 +1182,8 @@ def rule_call_forwards(ctx: Ctx, rid="C09.CALL-FORWARDS"):
                       "== of the arguments) instead of the compiled function", site=m.site(p.exit_node),
                       text=f"return {norm(v)[:80] if v is not None else None} after {[norm(s)[:40] for s in others[:3]]}")
     ctx.rep.floor("return paths of __call__", n, 1)
+    if not publish:
+        return
     # single published attribute read on the call path
     reads = set()
     todo, seen = ["__call__"], set()
